@@ -170,6 +170,7 @@ type seqRun struct {
 	sawGetError     bool
 	sawVE           bool
 	sawRedemption   bool
+	sawSuccessOnBlocked bool
 	clauseBlockedEv int
 }
 
@@ -191,8 +192,22 @@ func (r *seqRun) modelString() string {
 
 func (r *seqRun) checkLedger() {
 	if v := r.l.violations(); len(v) > 0 {
+		if h := harnessOnly(v); h != "" {
+			r.t.Fatalf("%s", ev.HarnessError("%s\nops:\n  %s", h, strings.Join(r.ops, "\n  ")))
+		}
 		r.fail("%s", strings.Join(v, "\n"))
 	}
+}
+
+// harnessOnly returns the first ledger message that reports a bookkeeping error of the harness
+// itself (they are prefixed "harness:"), or "".
+func harnessOnly(v []string) string {
+	for _, s := range v {
+		if strings.HasPrefix(s, "harness:") {
+			return s
+		}
+	}
+	return ""
 }
 
 func (r *seqRun) curObj(addr string) *provObj {
@@ -344,9 +359,6 @@ func (r *seqRun) opGet(t *rapid.T) {
 	r.checkLedger()
 	if err != nil {
 		r.sawGetError = true
-		if len(res) != 0 {
-			r.fail("GetSessions returned an error together with %d sessions", len(res))
-		}
 	}
 	if r.ve > 0 && len(hs) > 0 {
 		r.sawVE = true
@@ -429,11 +441,41 @@ func (r *seqRun) pickHeld(t *rapid.T) (int, *held) {
 	return i, r.held[i]
 }
 
+// pickHeldBiased prefers, two times out of three, a held session that satisfies want (if any does):
+// sessions of providers with several relays in flight are the interesting ones to fail, sessions of
+// currently blocked providers the interesting ones to complete.
+func (r *seqRun) pickHeldBiased(t *rapid.T, want func(*held) bool) (int, *held) {
+	if len(r.held) == 0 {
+		t.Skip("no session held")
+	}
+	var cands []int
+	for i, h := range r.held {
+		if want(h) {
+			cands = append(cands, i)
+		}
+	}
+	if len(cands) > 0 && rapid.IntRange(0, 2).Draw(t, "targeted") > 0 {
+		i := cands[rapid.IntRange(0, len(cands)-1).Draw(t, "heldTargeted")]
+		return i, r.held[i]
+	}
+	return r.pickHeld(t)
+}
+
+func (r *seqRun) heldOfProvider(c *lavasession.ConsumerSessionsWithProvider) (n int) {
+	for _, h := range r.held {
+		if h.rec.prov.obj.cswp == c {
+			n++
+		}
+	}
+	return n
+}
+
 func (r *seqRun) dropHeld(i int) { r.held = append(r.held[:i], r.held[i+1:]...) }
 
 // waitValid waits (bounded) for the asynchronous return of a redeemed provider to the valid list.
 func (r *seqRun) waitValid(addr string) bool {
 	deadline := time.Now().Add(300 * time.Millisecond)
+	r.c.AddExtra("redemption_waits", 1)
 	for {
 		st := r.w.csm.VerifConsumerState()
 		for _, v := range st.Valid {
@@ -442,6 +484,7 @@ func (r *seqRun) waitValid(addr string) bool {
 			}
 		}
 		if time.Now().After(deadline) {
+			r.c.AddExtra("redemption_wait_timeouts", 1)
 			return false
 		}
 		time.Sleep(50 * time.Microsecond)
@@ -458,7 +501,10 @@ func (r *seqRun) inManagerBlockedList(addr string) bool {
 }
 
 func (r *seqRun) opDone(t *rapid.T, cuOnly bool) {
-	i, h := r.pickHeld(t)
+	i, h := r.pickHeldBiased(t, func(h *held) bool {
+		o := h.rec.prov.obj
+		return o.epoch == r.w.epoch && r.state[o.spec.Addr] == stB
+	})
 	r.dropHeld(i)
 	obj := h.rec.prov.obj
 	addr := obj.spec.Addr
@@ -473,7 +519,10 @@ func (r *seqRun) opDone(t *rapid.T, cuOnly bool) {
 	if cuOnly {
 		err = r.w.csm.OnSessionDoneIncreaseCUOnly(h.s, 30)
 	} else {
-		err = r.w.csm.OnSessionDone(h.s, 30, h.cu, time.Millisecond, h.s.CalculateExpectedLatency(2*time.Millisecond), 1, len(r.w.current()), uint64(len(r.w.current())), rapid.Bool().Draw(t, "hanging"), nil)
+		// the spec CU of the api handed to OnSessionDone need not equal the CU reserved by GetSessions
+		// (extensions multiply the reserved CU); the session must account the reserved amount
+		specCU := h.cu + uint64(rapid.SampledFrom([]int{0, 0, 3}).Draw(t, "specCuDelta"))
+		err = r.w.csm.OnSessionDone(h.s, 30, specCU, time.Millisecond, h.s.CalculateExpectedLatency(2*time.Millisecond), 1, len(r.w.current()), uint64(len(r.w.current())), rapid.Bool().Draw(t, "hanging"), nil)
 	}
 	r.l.endRelease(h, true)
 	r.opf("done(cuOnly=%v) %s sess#%d cu=%d", cuOnly, addr, h.seq, h.cu)
@@ -481,6 +530,9 @@ func (r *seqRun) opDone(t *rapid.T, cuOnly bool) {
 		r.fail("OnSessionDone on a session the relay holds returned %v", err)
 	}
 	r.consec[h.s] = 0
+	if !cuOnly && !redeems && obj.epoch == r.w.epoch && r.state[addr] == stB {
+		r.sawSuccessOnBlocked = true // an older relay of a provider that was blocked meanwhile ends well: the provider must stay blocked
+	}
 	if redeems {
 		r.used[obj.cswp] = no
 		r.sawRedemption = true
@@ -502,7 +554,7 @@ func (r *seqRun) opDone(t *rapid.T, cuOnly bool) {
 }
 
 func (r *seqRun) opFail(t *rapid.T) {
-	i, h := r.pickHeld(t)
+	i, h := r.pickHeldBiased(t, func(h *held) bool { return r.heldOfProvider(h.rec.prov.obj.cswp) > 1 })
 	kind := genFailKind(t)
 	r.dropHeld(i)
 	obj := h.rec.prov.obj
@@ -582,11 +634,13 @@ func specString(specs []provSpec) string {
 }
 
 func propC28Seq(t *rapid.T) {
+	tok := beginCase()
+	defer tok.end()
 	c := ev.For("C28")
 	r := &seqRun{t: t, c: c, w: newWorld(), l: newLedger(), ctx: context.Background(), blockedAt: -1,
 		used: map[*lavasession.ConsumerSessionsWithProvider]tri{}, consec: map[*lavasession.SingleConsumerSession]int{}, state: map[string]bstate{}, pending: map[string]bool{}}
 	defer r.w.shutdown()
-	n := rapid.IntRange(3, 8).Draw(t, "nProviders")
+	n := rapid.SampledFrom([]int{3, 3, 4, 4, 5, 6, 7, 8}).Draw(t, "nProviders")
 	specs := genSpecs(t, "init", n, "p")
 	r.installEpoch(specs, 20)
 	r.opf("init epoch=20 providers=%v", specString(specs))
@@ -640,8 +694,10 @@ func propC28Seq(t *rapid.T) {
 	add(r.sawGetError, "getsessions-error")
 	add(r.sawVE, "virtual-epoch>0")
 	add(r.sawRedemption, "blocked-provider-redeemed")
+	add(r.sawSuccessOnBlocked, "older-relay-of-blocked-provider-succeeds")
 	add(r.nEpoch > 1, "epoch-update")
 	add(r.l.nReuse > 0, "session-reused")
+	tok.done = true
 	c.Case(nontrivial, "seq|"+strings.Join(r.ops, ";"), classes...)
 	c.AddExtra("ledger_interval_checks", r.l.nIntervalChecks)
 	c.AddExtra("ledger_exact_checks", r.l.nExactChecks)
